@@ -5,11 +5,116 @@
 From Coq Require Import Extraction ExtrOcamlBasic ZArith.
 From V Require Import Arith.FindIfDefs.
 From V Require Import Proto.RefElectDefs.
+From V Require Import Arith.MonoClockDefs.
+From V Require Import Arith.SortedInsertDefs.
+From V Require Import Proto.EventLoopDefs.
+From V Require Import Proto.ScopeDefs.
+From V Require Import Calc.CalcDefs.
+From V Require Import Proto.MutexV1Defs.
+From V Require Import Proto.StopSourceDefs.
+From V Require Import Proto.TimerQueueDefs.
+From V Require Import Proto.AsyncPassDefs.
+From V Require Import Proto.EventV1Defs.
+From V Require Import Proto.DetachOnCancelDefs.
+From V Require Import Proto.MutexV2Defs.
+From V Require Import Proto.CancellableDefs.
+From V Require Import Proto.TrampolineDefs.
 Extraction Blacklist List String Int.
 Cd "../ocaml".
 Extraction "model.ml"
   Z.add Z.mul Z.opp Z.div Z.modulo Z.quot Z.rem Z.of_nat Z.to_nat
   find_par find_par_w find_seq bulk_indices
   RefElect.step RefElect.init RefElect.delivered RefElect.quiescent
+  normalize
+  from_s_ns
+  add_dur
+  sub_dur
+  diff
+  lt
+  eqb
+  le
+  value
+  canonicalb
+  sec
+  ns
+  insert_timed
+  heap_insert
+  heap_pop
+  heap_remove
+  requeue
+  insert_all
+  sorted_dueb
+  neqb
+  gt
+  ge
+  heap_top
+  EventLoop.step
+  EventLoop.init
+  EventLoop.final
+  EventLoop.executed_items
+  Scope.step
+  Scope.init
+  Scope.quiescent
+  Scope.joins_over
+  Scope.someone_setting
+  Scope.joined
+  Scope.sps
+  Scope.jns
+  Scope.evt
+  Scope.w
+  Scope.stopped
+  Calc.exec
+  Calc.r_tr
+  Calc.r_roots
+  MutexV1.step
+  MutexV1.init
+  MutexV1.quiescent
+  MutexV1.holders
+  MutexV1.waiting
+  StopSource.step
+  StopSource.init
+  StopSource.finished
+  StopSource.cb_summary
+  TimerQueue.step
+  TimerQueue.init
+  TimerQueue.completions
+  TimerQueue.queue_ids
+  TimerQueue.quiescent
+  TimerQueue.now
+  AsyncPass.step
+  AsyncPass.init
+  AsyncPass.all_done
+  AsyncPass.delivered
+  AsyncPass.tres
+  AsyncPass.w
+  AsyncPass.aborted
+  AsyncPass.slot
+  AsyncPass.nthr
+  AsyncPass.kd
+  EventV1.step
+  EventV1.init
+  EventV1.quiescent
+  EventV1.top
+  EventV1.resumed
+  EventV1.stk
+  DetachOnCancel.step
+  DetachOnCancel.init
+  DetachOnCancel.quiescent
+  MutexV2.step
+  MutexV2.init
+  MutexV2.quiescent
+  MutexV2.tokens
+  Cancellable.step
+  Cancellable.init
+  Cancellable.completions
+  Cancellable.late
+  Cancellable.hooks
+  Cancellable.hook_bad
+  Cancellable.dangling
+  Cancellable.quiescent
+  Cancellable.destroyed
+  Tramp.eval
+  Tramp.finished
+  Tramp.max_nest
   (*END*).
 Cd "../coq".
